@@ -822,6 +822,46 @@ pub fn check_exhausted_side(e: Side, base: &PairCase, run: &PairRun, tap: &Tap, 
     let _ = conn;
 }
 
+/// C01 on a RAW server: what the application reads from each upload is what the reference peer put on the wire —
+/// byte-exact by position (padding stripped, nothing inserted), never more than was sent, and a clean end only
+/// after all of it.
+pub fn raw_c01(case: &RawCase, rr: &RawRun, tap: &Tap, out: &mut Outcome) {
+    let e = case.h2_side;
+    if e != Side::Server {
+        return;
+    }
+    let (_, recv) = crate::oracles::views(&rr.run.events);
+    for ((key, from), r) in &recv {
+        if *from != Side::Client || r.stream == 0 || *key != r.stream {
+            continue;
+        }
+        let sid = r.stream;
+        let mut sent = 0usize;
+        let mut ended = false;
+        let mut reset = false;
+        for f in tap.frames.iter().filter(|f| f.from != e && f.raw.stream == sid && f.t_d.is_some()) {
+            match &f.frame {
+                Ok(Frame::Data { data, end_stream, .. }) => {
+                    sent += data.len();
+                    ended |= *end_stream;
+                }
+                Ok(Frame::Headers { end_stream: true, .. }) => ended = true,
+                Ok(Frame::Rst { .. }) => reset = true,
+                _ => {}
+            }
+        }
+        if !r.content_ok {
+            out.fail("C01", "fidelity/content", "C01/body-bytes-modified", format!("server, upload on stream {}: the bytes handed to the application differ from the bytes of the peer's DATA payloads at the same offsets", sid));
+        }
+        if r.bytes > sent {
+            out.fail("C01", "fidelity/more-bytes", "C01/more-bytes-delivered-than-sent", format!("server, upload on stream {}: {} bytes delivered, the peer's DATA payloads add up to {}", sid, r.bytes, sent));
+        }
+        if r.clean_end.is_some() && ended && !reset && r.bytes != sent {
+            out.fail("C01", "fidelity/short-clean-end", "C01/clean-end-with-missing-bytes", format!("server, upload on stream {}: clean end after {} bytes, the peer sent {}", sid, r.bytes, sent));
+        }
+    }
+}
+
 pub struct FlowEngine;
 
 impl Engine for FlowEngine {
@@ -853,6 +893,7 @@ impl Engine for FlowEngine {
         raw_c03(case, &rr, &an.tap, &mut out);
         let t4 = t0.elapsed();
         check_exhausted_windows(case, &rr, &an.tap, &mut out);
+        raw_c01(case, &rr, &an.tap, &mut out);
         if std::env::var("VERIF_TIMING").is_ok() {
             eprintln!("timing: sim {:?} analyse {:?} common {:?} c03 {:?} exhausted {:?}", t1, t2 - t1, t3 - t2, t4 - t3, t0.elapsed() - t4);
         }
